@@ -79,7 +79,7 @@ func c05Run(ctx *SeqCtx, opsPrefix []string, rootPrefix string, shards uint, alp
 	byIdent := map[string]*c05Scope{}
 	byPtr := map[tally.Scope]*c05Scope{}
 	count := map[string]int64{}
-	ambiguous := map[string]bool{} // identities that share a registry key with another identity
+	ambiguous := map[string]bool{}     // identities that share a registry key with another identity
 	ambigPtr := map[tally.Scope]bool{} // scopes shared by two identities (known key ambiguity): derivations through them are not judged
 	byRKey := map[string]string{}
 	var fail func() (string, string, []string)
